@@ -544,7 +544,7 @@ func (g *Gen) indexAddr(st *State, x *ssa.IndexAddr) Val {
 	switch b := base.(type) {
 	case SliceV:
 		g.oblige(st, "index", "", "index in range", and(g.le(g.num(0), i), g.lt(i, b.Len)))
-		return PtrV{RootKey: typeKey(b.Elem), Ref: b.Ref, Idx: g.add(b.Off, i), Elem: b.Elem}
+		return PtrV{RootKey: typeKey(b.Elem), Ref: b.Ref, Idx: g.elemIdx(b.Off, i), Elem: b.Elem}
 	case PtrV:
 		arr := b.Elem.Underlying().(*types.Array)
 		g.oblige(st, "index", "", "array index in range", and(g.le(g.num(0), i), g.lt(i, g.num(arr.Len()))))
@@ -565,7 +565,7 @@ func (g *Gen) indexAddr(st *State, x *ssa.IndexAddr) Val {
 }
 
 func (g *Gen) strAt(st *State, s StrV, i string) Val {
-	v := IntV{"(select " + s.Arr + " " + g.add(s.Off, i) + ")"}
+	v := IntV{"(select " + s.Arr + " " + g.elemIdx(s.Off, i) + ")"}
 	g.assume(st, and("(<= 0 "+v.T+")", "(<= "+v.T+" 255)"))
 	return v
 }
